@@ -238,6 +238,7 @@ fn cuts_power_loss(pre: &DirImage, tr: &Trace, cap: usize, capped: &mut u64, max
     let syncs: Vec<usize> = (0..ev.len()).filter(|i| is_sync(&ev[*i]) && !ev[*i].injected).collect();
     let mut seen: HashSet<(Vec<usize>, Option<(usize, bool)>, Option<(usize, usize)>)> = HashSet::new();
     let mut cuts = vec![];
+    let zero_ext = std::env::var("MC_ZERO_EXT").is_ok();
     // interesting instants: after every stamp
     for t in 1..=tr.max_stamp + 1 {
         let durable = |i: usize| -> bool {
@@ -365,6 +366,18 @@ fn cuts_power_loss(pre: &DirImage, tr: &Trace, cap: usize, capped: &mut u64, max
                         choices.push((kept, None, Some((last, k))));
                         k += PAGE;
                     }
+                    // the extension itself survives (the new size was journalled) but none of its
+                    // data did: the extended range reads as zeros
+                    if dlen > 0 && zero_ext {
+                        let mut kept: Vec<usize> = sizing[..p - 1].to_vec();
+                        let mut klen = base_len;
+                        for i in &sizing[..p - 1] {
+                            klen = grow(klen, &ev[*i]);
+                        }
+                        kept.extend(inplace.iter().filter(|(_, end)| *end <= klen).map(|(i, _)| *i));
+                        kept.sort_by_key(|i| ev[*i].seq);
+                        choices.push((kept, None, Some((last, usize::MAX))));
+                    }
                 }
             }
             file_choices.push(choices);
@@ -464,7 +477,7 @@ fn cuts_power_loss(pre: &DirImage, tr: &Trace, cap: usize, capped: &mut u64, max
                 partial_append: partial,
                 desc: format!("t={t}: power loss; lost {:?}{}{}", lost,
                     torn.map(|(i, h)| format!("; torn {} ({} half kept)", ev_desc(&ev[i]), if h { "first" } else { "second" })).unwrap_or_default(),
-                    partial.map(|(i, k)| format!("; {} cut at {} bytes", ev_desc(&ev[i]), k)).unwrap_or_default()),
+                    partial.map(|(i, k)| if k == usize::MAX { format!("; {} kept as a zero-filled extension", ev_desc(&ev[i])) } else { format!("; {} cut at {} bytes", ev_desc(&ev[i]), k) }).unwrap_or_default()),
             });
         }
     }
@@ -481,11 +494,20 @@ fn build_image(pre: &DirImage, tr: &Trace, cut: &Cut) -> DirImage {
             vio::Kind::Append { data } => {
                 let f = img.files.entry(tr.events[i].file.clone()).or_default();
                 let len = f.len;
-                f.write_at(len, &data[..k]);
+                if k == usize::MAX {
+                    f.set_len(len + data.len() as u64);
+                } else {
+                    f.write_at(len, &data[..k]);
+                }
             }
             vio::Kind::Write { off, data } => {
                 let f = img.files.entry(tr.events[i].file.clone()).or_default();
-                f.write_at(*off, &data[..k]);
+                if k == usize::MAX {
+                    let l = f.len.max(*off + data.len() as u64);
+                    f.set_len(l);
+                } else {
+                    f.write_at(*off, &data[..k]);
+                }
             }
             _ => {}
         }
